@@ -1091,6 +1091,8 @@ class Fn:
         q = v.get('type', {}).get('qualType', '')
         if not q.rstrip().endswith('&') or q.rstrip().endswith('&&') or re.search(r'\bconst\b', q):
             return None
+        if self.ctx.cfg.get('handle_refs') and any(x in q for x in OPAQUE_TYPES):   # C11: `Bucket& b = buckets[i];` of an opaque class type: the reference IS the abstract handle
+            return None
         init = [x for x in v.get('inner', []) if isinstance(x, dict)]
         if not init:
             return None
@@ -1294,6 +1296,8 @@ class Fn:
             self.env = saved_
             return (f'match ({self.ctx.cfg["range_fold"]} {rng_} (fun {nm_} =>\n{btxt_})) with\n| Some rv_ => {jc["ret"]("rv_")}\n'
                     f'| None => (\n{rest()})\nend')
+        if self.ctx.cfg.get('skip_placement_new') and skip_wrappers(s).get('kind') == 'CXXNewExpr':   # C08: `::new(p) T(...)` as a statement constructs an object that is not modelled
+            return rest()
         if kind == 'CXXTryStmt' and self.ctx.cfg.get('try_as_body'):   # C16: exceptions are not modelled: the try block alone
             return self.stmts([s['inner'][0]] + lst[1:], k, jc)
         if kind == 'DoStmt':
